@@ -292,6 +292,44 @@ func staticDefinition(w *sched.W, file string) {
 			pats = append(pats, l.Pattern)
 		}
 		joined, jerr := regexp.Compile(strings.Join(pats, "|"))
+		// the library joins the level patterns in map iteration order: every order is a possible behaviour, and
+		// inline flags of one alternative extend over the alternatives to its right. Every order is checked,
+		// with the prompt alone and after a line of output.
+		if variant == "" && len(pats) <= 6 {
+			sort.Strings(pats)
+			perm := make([]string, 0, len(pats))
+			used := make([]bool, len(pats))
+			var rec func()
+			rec = func() {
+				if len(perm) == len(pats) {
+					jp, err := regexp.Compile(strings.Join(perm, "|"))
+					if err != nil {
+						return
+					}
+					w.Case("", "")
+					for k := range rp.PrivilegeLevels {
+						cp, ok := canon[name][k]
+						if !ok {
+							continue
+						}
+						if !jp.MatchString(cp) || !jp.MatchString("some output\n"+cp) {
+							w.Violate("c17:joined-pattern-order-dependent:"+name+"/"+k, fmt.Sprintf("%s: joined in the order %q the pattern does not find the prompt %q (alone: %v, after a line of output: %v)", tag, perm, cp, jp.MatchString(cp), jp.MatchString("some output\n"+cp)), tag)
+						}
+					}
+					return
+				}
+				for i := range pats {
+					if !used[i] {
+						used[i] = true
+						perm = append(perm, pats[i])
+						rec()
+						perm = perm[:len(perm)-1]
+						used[i] = false
+					}
+				}
+			}
+			rec()
+		}
 		for k, l := range rp.PrivilegeLevels {
 			if _, err := regexp.Compile(l.Pattern); err != nil {
 				w.Violate("c17:pattern-does-not-compile", fmt.Sprintf("%s: level %q: %v", tag, k, err), tag)
@@ -358,6 +396,28 @@ func staticDefinition(w *sched.W, file string) {
 			merged.NetworkOnClose = v.NetworkOnClose
 		}
 		check(name+"#"+vn, &merged, vn)
+		// history: the default definition loaded after one of its variants is still the default definition
+		check(name+" (after variant "+vn+")", raw.Default, "")
+	}
+	// history: two platforms of one name in one process do not share their driver
+	tr1, _ := transportFor(nil)
+	tr2, _ := transportFor(nil)
+	p1, e1 := platform.NewPlatform(name, "host-one", options.WithCustomTransport(tr1))
+	p2, e2 := platform.NewPlatform(name, "host-two", options.WithCustomTransport(tr2))
+	if e1 == nil && e2 == nil {
+		w.Case("", name+" two hosts")
+		hostOf := func(p *platform.Platform) string {
+			if nd, err := p.GetNetworkDriver(); err == nil {
+				return nd.Transport.GetHost()
+			}
+			if gd, err := p.GetGenericDriver(); err == nil {
+				return gd.Transport.GetHost()
+			}
+			return "?"
+		}
+		if h1, h2 := hostOf(p1), hostOf(p2); h1 != "host-one" || h2 != "host-two" {
+			w.Violate("c17:platforms-share-state", fmt.Sprintf("%s: two platforms built for host-one and host-two yield drivers for %q and %q", name, h1, h2), name+" two hosts")
+		}
 	}
 }
 
@@ -573,7 +633,7 @@ func TestCheck(t *testing.T) {
 	sched.Main(t, sched.Check{
 		ID:    "C17",
 		Level: "exploration",
-		Rule:  "exhaustive: every name in platform.GetPlatformNames(), every embedded assets/platforms/*.yaml (except the documentation-only example.yaml), every variant; static: name<->file bijection, platform-type, declared driver type, level fields equal to the YAML parsed independently, single tree, default level, every pattern/escalate-prompt compiles, a hand-written canonical prompt per level matched by its own level (with not-contains), by the joined pattern and by the pattern the driver installs, on-open/on-close steps well-formed, variants replace exactly the sections they define; dynamic: a device model built from the definition (one mode per level, canonical prompts, transitions = escalate/deescalate strings, password prompt where escalate-auth): Open runs the on-open steps, Close the on-close steps, and for every ordered (current, target) pair whose path only climbs into levels that have an escalate command AcquirePriv ends in the target or a level with an indistinguishable prompt",
+		Rule:  "exhaustive: every name in platform.GetPlatformNames(), every embedded assets/platforms/*.yaml (except the documentation-only example.yaml), every variant; static: name<->file bijection, platform-type, declared driver type, level fields equal to the YAML parsed independently, single tree, default level, every pattern/escalate-prompt compiles, a hand-written canonical prompt per level matched by its own level (with not-contains), by the joined pattern in every join order (alone and after a line of output) and by the pattern the driver installs, on-open/on-close steps well-formed, variants replace exactly the sections they define, the default loaded again after each variant is unchanged, two platforms of one name keep their own drivers; dynamic: a device model built from the definition (one mode per level, canonical prompts, transitions = escalate/deescalate strings, password prompt where escalate-auth): Open runs the on-open steps, Close the on-close steps, and for every ordered (current, target) pair whose path only climbs into levels that have an escalate command AcquirePriv ends in the target or a level with an indistinguishable prompt",
 		Assumptions: []string{
 			"canonical prompts are the harness's ground truth (about 55 entries); a mismatch on the pinned tree was classified by hand",
 			"the driver's cached level is correct when the device is put into `current` (otherwise Go map iteration order decides between levels with overlapping patterns)",
